@@ -4,6 +4,8 @@ copies a confirmed seed from /tmp/wt/<name>/SEED/<k> to /verif/seeded/<seed-id>/
 check (and any extra checks given) against /repo with the patch applied; records everything in meta.json"""
 import json, os, shutil, subprocess, sys, glob, re
 name, k, prop, sid = sys.argv[1:5]
+if subprocess.run(["git", "-C", "/repo", "status", "--porcelain", "--untracked-files=no"], capture_output=True, text=True).stdout.strip():
+    sys.exit("refusing to run: /repo has uncommitted changes (they would be lost by the checkout at the end)")
 extra = sys.argv[5:]
 src = ("/tmp/seedstage/%s/SEED/%s" % (name, k)) if os.path.isdir("/tmp/seedstage/%s/SEED/%s" % (name, k)) else ("/tmp/wt/%s/SEED/%s" % (name, k))
 dst = "/verif/seeded/%s" % sid
